@@ -142,3 +142,18 @@ def bits_content_ok(r, b, n):
         return len(r) == 1 + n // 8 and r[0] == 0 and r[1:] == b[:n // 8]
     return (len(r) == 2 + n // 8 and r[0] == 8 - n % 8 and r[1:1 + n // 8] == b[:n // 8]
             and r[1 + n // 8] == b[n // 8] - b[n // 8] % pow2(8 - n % 8))
+
+
+@lemma
+def der_length_roundtrip(r: IntList, n: Int):
+    """decode_length o encode_length_definite == id: the length octets r of n announce exactly n and span all of r"""
+    requires(n >= 0 and is_der_length(r, n) and all_bytes(r))
+    ensures(len_hdr_size(r, 0) == len(r) and len_value(r, 0) == n and not len_is_indefinite(r, 0))
+    blen(n // 2)
+    blen(n // 4)
+    blen(n // 8)
+    blen(n // 16)
+    blen(n // 32)
+    blen(n // 64)
+    blen(n // 128)
+    blen(n // 256)
